@@ -247,6 +247,27 @@ pub fn run(thorough: bool) -> Vec<Part> {
         for (v, _) in &st2.violations {
             part.violations.push(v.clone());
         }
+        // third graph: the write path is active on the same connection (the application answers
+        // what it pops; a write may be short and the next one may fail): pending descriptors are
+        // untouched by what happens to the output
+        {
+            let mut wcfg = Cfg::base("C12", "fd-alphabet with answers, short and failing writes", pieces(false), 40);
+            wcfg.max_fds_per_read = 1;
+            wcfg.max_pending_fds = 2;
+            wcfg.eof = false;
+            wcfg.empty_reads = false;
+            wcfg.judge_errors = false;
+            wcfg.answer_requests = true;
+            wcfg.write_faults = true;
+            wcfg.write_shorts = true;
+            wcfg.write_flags_with_fds = true;
+            wcfg.offer_when_queued_le = if thorough { 12 } else { 4 };
+            let st3 = bfs(&wcfg, &Limits { max_states: 3_000_000, max_secs: if thorough { 1500.0 } else { 60.0 }, ..Default::default() }, workers());
+            record(&mut part, &wcfg.label, &st3);
+            for (v, _) in &st3.violations {
+                part.violations.push(v.clone());
+            }
+        }
         // one read carrying the maximum of 253 descriptors
         let mut big = Cfg::base("C12", "253 descriptors on one read", vec![], 40);
         big.stream = Some(b"GET / HTTP/1.1\r\n\r\nGET /b HTTP/1.1\r\n\r\n".to_vec());
